@@ -38,13 +38,30 @@ VOID = {
 ACCESSORS = set()
 
 
+RECORD = None  # a list while some caller wants the readings themselves (props/c11.py unit corpus_lexical)
+
+
+def _plain(v):
+    if v is None or isinstance(v, (bool, int, float, str, bytes)):
+        return repr(v)
+    if isinstance(v, (list, tuple)):
+        return "%s[%d]" % (type(v).__name__, len(v))
+    name = getattr(v, "name", None)
+    return "%s%s" % (type(v).__name__, ":" + name if isinstance(name, str) and hasattr(type(v), "__members__") else "")
+
+
 def _r(name, fn):
     """Call one reader; count which accessor ran; documented limitations are caught and counted."""
     ACCESSORS.add(name)
     try:
-        return fn()
+        res = fn()
+        if RECORD is not None:
+            RECORD.append((name, _plain(res)))
+        return res
     except (NotImplementedError, KeyError, ValueError, AttributeError, IndexError, TypeError) as e:
         LIMITS[name + ":" + type(e).__name__] = LIMITS.get(name + ":" + type(e).__name__, 0) + 1
+        if RECORD is not None:
+            RECORD.append((name, "raises " + type(e).__name__))
         return None
 
 
